@@ -18,6 +18,14 @@ THEOREMS = [
     "Ural.Props.C01.path_unquote_view",
     "Ural.Props.C01.path_quote_view",
     "Ural.Props.C01.canon_path_escaping",
+    "Ural.Props.C01.resolve_view",
+    "Ural.Props.C01.normpath_segments",
+    "Ural.Props.C01.normpath_view",
+    "Ural.Props.C01.pathView_root",
+    "Ural.Props.C01.canon_path",
+    "Ural.Props.C01.canon_path_root",
+    "Ural.Normpath.resolvePath_eq",
+    "Ural.Normpath.segView_render",
     "Ural.Props.C01.canon_no_new_delimiter",
     "Ural.Props.C01.canon_quoted_no_delimiter",
     "Ural.Canonicalize.canonHost_idem",
@@ -28,7 +36,8 @@ RULE = (
     "A case is a URL (built from structured components over the token alphabet of the "
     "quantifier, or a raw odd string) x quoted x strip_fragment, default_protocol=https (a "
     "sample also with http / ftp). Model vs implementation: the cleaned string before parsing, "
-    "the SplitResult tuple (unsplit=False) and the final string. Oracle: the 'same resource' "
+    "the SplitResult tuple (unsplit=False) and the final string; the model also evaluates the "
+    "hypotheses of the path theorems (absPath, pathClean) on every parsed path. Oracle: the 'same resource' "
     "view (scheme, decoded userinfo, host key, effective port, resolved decoded segments + "
     "trailing slash, ordered decoded query items, decoded fragment) of the re-parsed output "
     "equals that of the cleaned input. quick: every atom sequence of length <= 1 in each "
@@ -49,11 +58,12 @@ TRUSTED = [
 ]
 ASSUMPTIONS = ["URLs that the parser rejects (ValueError) are outside the property"]
 UNPROVED = (
-    "path clause: proved that unescaping/quoting never change the segment view (path_unquote_view, "
-    "path_quote_view, canon_path_escaping); that normpath + the trailing-slash / empty-path rules compute "
-    "that view on the unescaped path (plain-string dot-segment resolution) is not yet a theorem: it is "
-    "checked by the oracle on every case and by the model-vs-implementation comparison; re-parsing of "
-    "the printed URL is CPython's urlsplit (oracle re-parses the real output)"
+    "every clause of the statement is a theorem about the components (the path clause: canon_path, for every "
+    "parsed input whose path is empty or starts with '/' -- hypothesis absPath, evaluated by the model on the "
+    "path of every parsed case, `path_hyp` line; it is needed: normpath cannot pop the first segment of a "
+    "relative path, witness in Props/C01.lean); NOT a theorem: that CPython's urlsplit, applied to the printed "
+    "URL, gives these components back (the oracle re-parses the real output on every case; "
+    "canon_no_new_delimiter / canon_quoted_no_delimiter support it), and the IDNA codec (abstract, PunyLaws)"
 )
 OPTS = [(False, False), (True, False), (False, True), (True, True)]
 
